@@ -409,6 +409,9 @@ def fix_starred_imports(source: str) -> str:
 
     # Remove remaining starred imports
     for node in core.filter_nodes(root.body, template):
+        if node.level or node.module is None or _trace_module_source_file(node.module) is None:
+            # What a module that cannot be found provides is unknown
+            continue
         if not core.match_template(node, tuple(starred_import_name_mapping)):
             yield node, None
 
